@@ -620,6 +620,12 @@ impl FormatSpec {
         T: CharLen + Deref<Target = str>,
     {
         self.validate_format(FormatType::String)?;
+        if self.sign.is_some() {
+            return Err(FormatSpecError::NotAllowed("Sign"));
+        }
+        if self.alternate_form {
+            return Err(FormatSpecError::NotAllowed("Alternate form (#)"));
+        }
         match self.format_type {
             Some(FormatType::String) | None => match self.precision {
                 // the precision truncates the value (by characters) before it is padded
